@@ -64,6 +64,7 @@ static void lgmsg(const struct message *msg)
 	size_t n = tmp.read(sizeof(buf), buf);
 	lghex(buf, n);
 }
+static void follow_up(long tag);
 /* reply handler registered by await: arg = tag number */
 static int reply_handler(void *arg, const struct message *msg)
 {
@@ -71,6 +72,8 @@ static int reply_handler(void *arg, const struct message *msg)
 	sep();
 	snprintf(t, sizeof(t), "h%ld(", (long) (intptr_t) arg);
 	lg(t); lgmsg(msg); lg(")");
+	/* tags 800000..899999: the command registers a follow-up request (tag + 1) while it handles its reply */
+	if (msg && (intptr_t) arg >= 800000 && (intptr_t) arg < 900000) follow_up((intptr_t) arg + 1);
 	/* tags from 900000 on: a command that reports failure */
 	return (intptr_t) arg >= 900000 ? -1 : 0;
 }
@@ -116,6 +119,13 @@ public:
 	}
 };
 static xstream *xs;
+static void follow_up(long tag)
+{
+	char t[48];
+	/* the id shows in the frame of the next `xr send` */
+	if (xs) xs->await(reply_handler, (void *) (intptr_t) tag);
+	(void) t;
+}
 static int peer = -1, fd0 = -1;
 static uint8_t rx[1 << 16];
 static size_t rxlen;
